@@ -7,7 +7,7 @@ fail=0
 for sd in seeded/*${pat}*/; do
   name=$(basename $sd)
   d=$(mktemp -d /tmp/verif-seedre.XXXXXX)
-  rsync -a --exclude=.git /repo/ "$d/"
+  rsync -a --exclude=.git "${VP_RUN_REPO:-/repo}/" "$d/"
   if ! (cd "$d" && patch -s -p1 < "$OLDPWD/$sd/patch.diff"); then echo "PATCH-FAILED $name"; fail=1; rm -rf "$d"; continue; fi
   for f in $sd/check_*.txt; do
     prop=$(basename $f .txt | sed 's/check_//')
